@@ -40,6 +40,87 @@ theorem Pres.wr {h0 h : Heap} (p : Pres h0 h) {a : Nat} (ha : h0.length ≤ a) (
 
 theorem Pres.alloc {h0 h : Heap} (p : Pres h0 h) (c : Cell) : Pres h0 (alloc h c).1 := p.trans (alloc_pres h c)
 
+theorem write_same (h : Heap) (a : Nat) (c : Cell) (ha : a < h.length) : (write h a c)[a]? = some c := by
+  simp [write, ha]
+
+/-- the addresses stored in a cell -/
+def refsOf : Cell → List Nat
+  | .dict items => items.filterMap (fun kv => match kv.2 with | .addr x => some x | _ => none)
+  | .list items => items.filterMap (fun r => match r with | .addr x => some x | _ => none)
+  | .sv _ b d => [b, d]
+  | .cov _ _ orb _ => [orb]
+  | _ => []
+
+theorem mem_refs_list {items : List Ref} {x : Nat} : x ∈ refsOf (.list items) ↔ Ref.addr x ∈ items := by
+  unfold refsOf
+  simp only [List.mem_filterMap]
+  constructor
+  · rintro ⟨r, hr, hx⟩
+    split at hx
+    · simp at hx; subst hx; exact hr
+    · simp at hx
+  · intro hm; exact ⟨_, hm, rfl⟩
+
+theorem mem_refs_dict {items : Items} {x : Nat} : x ∈ refsOf (.dict items) ↔ ∃ k, (k, Ref.addr x) ∈ items := by
+  unfold refsOf
+  simp only [List.mem_filterMap]
+  constructor
+  · rintro ⟨⟨k, r⟩, hr, hx⟩
+    split at hx
+    · rename_i y hy
+      simp at hx hy; subst hx; subst hy; exact ⟨k, hr⟩
+    · simp at hx
+  · rintro ⟨k, hm⟩; exact ⟨_, hm, rfl⟩
+
+/-- every address stored in a cell of `h` that did not exist in `h0` satisfies `P` -/
+def ClosedP (P : Nat → Prop) (h0 h : Heap) : Prop :=
+  ∀ a c, h0.length ≤ a → h[a]? = some c → ∀ x ∈ refsOf c, P x
+
+theorem ClosedP.refl (P : Nat → Prop) (h : Heap) : ClosedP P h h := by
+  intro a c ha hc
+  have := (List.getElem?_eq_some_iff.mp hc).1
+  omega
+
+theorem ClosedP.alloc {P : Nat → Prop} {h0 h : Heap} (q : ClosedP P h0 h) (c : Cell) (hc : ∀ x ∈ refsOf c, P x) :
+    ClosedP P h0 (alloc h c).1 := by
+  intro a c' ha hc'
+  by_cases hlt : a < h.length
+  · have : (Heap.alloc h c).1[a]? = h[a]? := by simp [Heap.alloc, List.getElem?_append_left hlt]
+    rw [this] at hc'; exact q a c' ha hc'
+  · by_cases heq : a = h.length
+    · subst heq
+      rw [alloc_get] at hc'
+      simp at hc'; subst hc'; exact hc
+    · have : (Heap.alloc h c).1[a]? = none := by
+        simp [Heap.alloc]; omega
+      rw [this] at hc'; simp at hc'
+
+theorem ClosedP.wr {P : Nat → Prop} {h0 h : Heap} (q : ClosedP P h0 h) (a : Nat) (c : Cell) (hc : ∀ x ∈ refsOf c, P x) :
+    ClosedP P h0 (write h a c) := by
+  intro b c' hb hc'
+  by_cases heq : b = a
+  · subst heq
+    by_cases hlt : b < h.length
+    · rw [write_same _ _ _ hlt] at hc'
+      simp at hc'; subst hc'; exact hc
+    · have : (write h b c)[b]? = none := by simp [write]; omega
+      rw [this] at hc'; simp at hc'
+  · rw [write_other _ _ _ _ heq] at hc'
+    exact q b c' hb hc'
+
+theorem lookup_mem (m : List (Nat × Nat)) (a a' : Nat) (hl : m.lookup a = some a') : (a, a') ∈ m := by
+  induction m with
+  | nil => simp [List.lookup] at hl
+  | cons p rest ih =>
+    obtain ⟨k, v⟩ := p
+    by_cases hk : a = k
+    · subst hk
+      simp [List.lookup] at hl
+      subst hl; exact List.mem_cons_self
+    · have : (a == k) = false := by simp [hk]
+      simp [List.lookup, this] at hl
+      exact List.mem_cons_of_mem _ (ih hl)
+
 /-- the physical state behind a symbolic value: form conversions erased (they do not move the point) -/
 def phys : Val → Val
   | .init k => .init k
